@@ -306,14 +306,14 @@ impl Vm {
     let arg_count = self.read_short() as usize;
     let args = self.fiber.stack_slice(arg_count);
 
-    let mut length: usize = 0;
+    // each segment is the result of a str call which, when user defined, may not be a string
+    let mut buffers = String::new();
     for arg in args {
-      length += arg.to_obj().to_str().len();
-    }
-
-    let mut buffers = String::with_capacity(length);
-    for arg in args {
-      buffers.push_str(&arg.to_obj().to_str())
+      if arg.is_obj_kind(ObjectKind::String) {
+        buffers.push_str(&arg.to_obj().to_str())
+      } else {
+        buffers.push_str(&arg.to_string())
+      }
     }
 
     self.fiber.drop_n(arg_count);
